@@ -47,6 +47,46 @@ theorem mv_run_pid (l : List Str) (st : Store) (log : List Eff) (p : Str) (t : T
       refine ⟨_, _, ⟨rfl, rfl⟩, ⟨rfl, rfl, rfl, rfl, fun j x hx => Or.inl hx⟩, ?_⟩
       intro m hm; cases hm
 
+/-- the same run, with its result and the object map spelled out (for the refinement) -/
+theorem mv_run_pid_spec (l : List Str) (st : Store) (log : List Eff) (p : Str) (t : Tok) (add cs cks : Option Str)
+    (expSize : IArg) :
+    let digests := (refineAlgorithmList defaultAlgos add cs).map fun a => (a, o.dig a t)
+    let v := verdict digests (fun a => o.dig a t) (o.size t) expSize cks cs
+    let cid := o.dig cfg.alg t
+    ∃ st' log', (moveAndGetChecksums cfg o (some p) t add cs cks expSize).run (calmL l st log) =
+        ((match v.exc with
+          | some e => Except.error e
+          | none => Except.ok { cid := cid, size := o.size t, digests := digests }), calmL l st' log') ∧
+      st'.pidRefs = st.pidRefs ∧ st'.cidRefs = st.cidRefs ∧ st'.tmpRefs = st.tmpRefs ∧ st'.tmpObj = st.tmpObj ∧
+      st'.mdocs = st.mdocs ∧ st'.tmpMeta = st.tmpMeta ∧ (∀ x ∈ st.dirs, x ∈ st'.dirs) ∧
+      (∀ j, st'.objs.get j =
+        if v.exc = none ∧ st.objs.get cid = none ∧ cid = j then some t else st.objs.get j) := by
+  intro digests v cid
+  cases hv : v.exc with
+  | none =>
+    have hv' : (verdict ((refineAlgorithmList defaultAlgos add cs).map fun a => (a, o.dig a t)) (fun a => o.dig a t)
+      (o.size t) expSize cks cs).exc = none := hv
+    cases ho : st.objs.get (o.dig cfg.alg t) with
+    | none =>
+      simp [calmL, moveAndGetChecksums, runsimp, hv', ho]
+      refine ⟨_, ⟨⟨rfl, rfl⟩, rfl⟩, rfl, rfl, rfl, rfl, rfl, rfl, ?_, ?_⟩
+      · intro a b hx; simp [hx]
+      · intro j
+        simp only
+        rw [FMap.get_set]
+    | some y =>
+      simp [calmL, moveAndGetChecksums, runsimp, hv', ho]
+      refine ⟨_, ⟨⟨rfl, rfl⟩, rfl⟩, rfl, rfl, rfl, rfl, rfl, rfl, fun a b hx => hx, ?_⟩
+      intro j; rfl
+  | some e =>
+    have hv' : (verdict ((refineAlgorithmList defaultAlgos add cs).map fun a => (a, o.dig a t)) (fun a => o.dig a t)
+      (o.size t) expSize cks cs).exc = some e := hv
+    cases ho : st.objs.get (o.dig cfg.alg t) with
+    | none =>
+      simp [calmL, moveAndGetChecksums, runsimp, hv', ho]
+    | some y =>
+      simp [calmL, moveAndGetChecksums, runsimp, hv', ho]
+
 /-- the data-only path (`store_object(None, data)`) -/
 theorem mv_run_data (l : List Str) (st : Store) (log : List Eff) (t : Tok) :
     ∃ r st' log', (moveAndGetChecksums cfg o none t none none none .none).run (calmL l st log) =
